@@ -352,3 +352,130 @@ Definition run_C01S (s : sexp) : sexp :=
     end
   | _ => sBad
   end.
+
+(* ==================================================================================================================
+   Generalised line descriptions (fourth session): command names ANYWHERE among the option items.
+
+   The grammar above ([ld]) writes all command-name spellings first.  The parser accepts more: to its token loop a
+   command-name spelling is an ordinary positional token, and the re-alignment (_insert_missing_command_names) matches the
+   command names against the FIRST positional values of the line, wherever they stand - behind options ('-v server --port 80
+   add x'), even behind "--" ('-v -- server add x').  [ld2] describes exactly those lines: an item is an item of the old
+   grammar or a command-name spelling; after "--" come further command-name spellings, then values.
+   Nothing above is changed; [embed] maps the old grammar into the new one. *)
+Inductive item2 :=
+| I2 (it : item)                                      (* an option item or a positional value, as above *)
+| IName (s : str).                                    (* a command-name spelling: the name or one of its aliases *)
+Record ld2 := { l2_items : list item2;
+                l2_tail : option (list str * list str) }.   (* after "--": command-name spellings, then values *)
+
+Definition render_item2 (x : item2) : list str := match x with I2 it => render_item it | IName s => [s] end.
+Definition render_tail2 (t : option (list str * list str)) : list str :=
+  match t with Some (ns, vs) => [DASH; DASH] :: ns ++ vs | None => [] end.
+Definition render2 (d : ld2) : list str := flat_map render_item2 (l2_items d) ++ render_tail2 (l2_tail d).
+
+Definition item2_name (x : item2) : list str := match x with IName s => [s] | I2 _ => [] end.
+Definition item2_pos (x : item2) : list str := match x with I2 it => item_pos it | IName _ => [] end.
+Definition item2_events (x : item2) : list (opt * given) := match x with I2 it => item_events it | IName _ => [] end.
+(* the command-name spellings of the line, in line order *)
+Definition names2 (d : ld2) : list str :=
+  flat_map item2_name (l2_items d) ++ match l2_tail d with Some (ns, _) => ns | None => [] end.
+(* the positional values, command-name spellings excluded *)
+Definition values2 (d : ld2) : list str :=
+  flat_map item2_pos (l2_items d) ++ match l2_tail d with Some (_, vs) => vs | None => [] end.
+Definition events2 (d : ld2) : list (opt * given) := flat_map item2_events (l2_items d).
+
+(* the intended assignment: as [denote]; the command-name spellings give nothing *)
+Definition denote2 (f : fmt) (d : ld2) : args :=
+  {| ar_opts := fold_left denote_event (events2 d) [];
+     ar_args := place_typed (get_arguments_all f) (values2 d) |}.
+
+(* to the token loop a command-name spelling is a positional token *)
+Definition to_item (x : item2) : item := match x with I2 it => it | IName s => IPos s end.
+Definition is_pos2 (x : item2) : bool := match x with I2 (IPos _) => true | _ => false end.
+Definition is_name2 (x : item2) : bool := match x with IName _ => true | I2 _ => false end.
+(* the command names are the first positional tokens of the line: no positional value stands in front of a command-name
+   spelling ([later] = there are spellings after "--").  Otherwise the re-alignment would try that value as the first
+   command name. *)
+Fixpoint names_first (l : list item2) (later : bool) : bool :=
+  match l with
+  | [] => true
+  | x :: r => (if is_pos2 x then negb later && negb (existsb is_name2 r) else true) && names_first r later
+  end.
+(* the spellings name the first command names, in order: each is a non-empty token (the re-alignment never takes an
+   empty value for a command name) that is the name or an alias *)
+Fixpoint names_match (cns : list (str * cname)) (names : list str) : bool :=
+  match names, cns with
+  | [], _ => true
+  | _, [] => false
+  | s :: names', c :: cns' => nonempty s && cname_match (snd c) s && names_match cns' names'
+  end.
+
+(* The side conditions.  Those of [wf_line], with the command-name spellings in their places:
+   - before "--" a spelling is a positional token of the token loop: [items_ok] on [to_item] asks that it does not look
+     like an option ([pos_tok]) and that it does not follow an omitted optional value (the look-ahead would swallow it);
+   - [names_first], [names_match];
+   - the values fit the declared arguments, every required argument gets one, and the first omitted command name is not
+     what the first value happens to be. *)
+Definition wf_line2 (f : fmt) (d : ld2) : bool :=
+  match aug_format f with
+  | Err _ => false
+  | Ok (f', arguments, cns) =>
+      items_ok f f' (map to_item (l2_items d)) &&
+      names_first (l2_items d) (match l2_tail d with Some (_ :: _, _) => true | _ => false end) &&
+      names_match cns (names2 d) &&
+      fits (get_arguments_all f) (values2 d) &&
+      req_ok (get_arguments_all f) (values2 d) &&
+      no_clash cns (names2 d) (values2 d)
+  end.
+
+(* the old grammar inside the new one, and back: all spellings moved to the front *)
+Definition embed (d : ld) : ld2 :=
+  {| l2_items := map IName (ld_names d) ++ map I2 (ld_items d);
+     l2_tail := match ld_tail d with Some vs => Some ([], vs) | None => None end |}.
+Definition is_I2 (x : item2) : list item := match x with I2 it => [it] | IName _ => [] end.
+Definition names_to_front (d : ld2) : ld :=
+  {| ld_names := names2 d;
+     ld_items := flat_map is_I2 (l2_items d);
+     ld_tail := match l2_tail d with Some (_, vs) => Some vs | None => None end |}.
+
+(* ---------- wire: (levels lenient tokens extra [ld]? [ld2]?): the answer of run_C01S (parse; verdicts on the old
+   description, when the line has one) and the same four verdicts on the generalised description ---------- *)
+Definition dec_item2 (f : fmt) (s : sexp) : option item2 :=
+  match s with
+  | L [A 5%Z; t] => option_map IName (dStr t)
+  | _ => option_map I2 (dec_item f s)
+  end.
+Definition dec_tail2 (s : sexp) : option (list str * list str) :=
+  match s with
+  | L [ns; vs] => match dList dStr ns, dList dStr vs with Some ns, Some vs => Some (ns, vs) | _, _ => None end
+  | _ => None
+  end.
+Definition dec_ld2 (f : fmt) (s : sexp) : option ld2 :=
+  match s with
+  | L [L items; tail] =>
+    match dAll (dec_item2 f) items, dOpt dec_tail2 tail with
+    | Some items, Some tail => Some {| l2_items := items; l2_tail := tail |}
+    | _, _ => None end
+  | _ => None
+  end.
+Definition run_C01T (s : sexp) : sexp :=
+  match s with
+  | L [levels; len; toks; extra; lds; L lds2] =>
+    match run_C01S (L [levels; len; toks; extra; lds]) with
+    | L [p; v1] =>
+      match dList (dList dec_element) levels, dList dStr extra with
+      | Some lv, Some ex =>
+        match build_bases lv None, lds2 with
+        | Ok (Some f), [d] =>
+          match dec_ld2 f d with
+          | Some d => L [p; v1; L [L [sB (fmt_ok f); sB (wf_line2 f d); sList sStr (render2 d); enc_args f ex (denote2 f d)]]]
+          | None => sBad
+          end
+        | _, _ => L [p; v1; L []]
+        end
+      | _, _ => sBad
+      end
+    | _ => sBad
+    end
+  | _ => sBad
+  end.
